@@ -24,7 +24,7 @@ func c14Poison(c *ctx) {
 	poisonTags := [][]string{
 		{"urlprefix-/p1", "q\"uote"}, {"urlprefix-/p2", "back\\slash"}, {"urlprefix-/p3", "new\nline"}, {"urlprefix-/p4 weight=abc"}, {"urlprefix-/p5 weight=Inf"},
 		{"urlprefix-/p6 weight=NaN"}, {"urlprefix-/p7 weight=1e400"}, {"urlprefix-/p8 redirect=301,"}, {"urlprefix-/p9\tx"}, {"urlprefix-/[unclosed"}, {"urlprefix-/{"},
-		{"urlprefix-p.test/a\nroute del good0"}, {"urlprefix-/ok", "tab\there"}, {"urlprefix-/p10 weight=5e-324"}, {"urlprefix-/p11 weight=1e308", "x"},
+		{"urlprefix-p.test/a\nroute del good0"}, {"urlprefix-/ok", "tab\there"}, {"urlprefix-/p10 weight=5e-324"}, {"urlprefix-legacy.test/caf\uFFFD"}, {"urlprefix-legacy.test/caf\xe9"}, {"urlprefix-/p11 weight=1e308", "x"},
 	}
 	poisonNames := []string{"bad svc", "bad\"svc", "ok-name"}
 	n := c.scale(c.pick(150, 1500))
